@@ -411,7 +411,7 @@ theorem pop_eq (less : P → P → Bool) (q : PQ K P) :
       | none => none
       | some (h', it, notes) => some ({ h := h', m := mDel (applyNotes q.m notes) it.1 }, it.1) := by
   unfold Juniper.Model.PQ.pop
-  simp only [pqPopPops, pqPopDeletes, if_true]; rfl
+  simp only [pqPopPops, pqPopDeletes, pqPopReturnsKey, if_true]; rfl
 
 theorem percolateDown_nil (less : KP K P → KP K P → Bool) (i : Nat) :
     percolateDown less ([] : List (KP K P)) i = ([], []) := rfl
@@ -477,7 +477,7 @@ theorem priority_present {q : PQ K P} (hq : IndexInv q) {k : K} {p : P} (h : Hol
   obtain ⟨i, hi⟩ := List.getElem?_of_mem h
   have hm := hq.idx i k p hi
   have e0 : ¬ ((i : Int) < 0) := by omega
-  simp [priority, idxOf, hm, priorityPresent, e0, item, itemIdx, hi]
+  simp [priority, idxOf, hm, priorityPresent, priorityReadsItem, e0, item, itemIdx, hi]
 
 theorem priority_absent {q : PQ K P} (hq : IndexInv q) {k : K} (h : ∀ p, ¬ Holds q k p) :
     priority q k = some none := by
